@@ -15,13 +15,11 @@ package state
 
 //@ func (*Task).Has
 //@   props C14
-//@   assigns nothing
 //@   ensures result == (t.data[key] != nil)
 
 // State.Changes returns exactly the changes registered in the state
 //@ func (*State).Changes
 //@   props C14
-//@   assigns nothing
 //@   ensures [complete] forall k string :: has(s.changes, k) ==> exists i int :: 0 <= i && i < len(result) && result[i] == s.changes[k]
 //@   ensures [members] forall i int :: {result[i]} 0 <= i && i < len(result) ==> exists k string :: has(s.changes, k) && result[i] == s.changes[k]
 //@   loop 0: invariant forall k string :: visited(k) ==> exists i int :: 0 <= i && i < len(res) && res[i] == s.changes[k]
@@ -30,7 +28,6 @@ package state
 // State.Tasks returns exactly the tasks of the state that are linked to a change
 //@ func (*State).Tasks
 //@   props C14
-//@   assigns nothing
 //@   ensures [complete] forall k string :: has(s.tasks, k) && s.tasks[k].state.changes[s.tasks[k].change] != nil ==> exists i int :: 0 <= i && i < len(result) && result[i] == s.tasks[k]
 //@   ensures [members] forall i int :: {result[i]} 0 <= i && i < len(result) ==> result[i].state.changes[result[i].change] != nil && exists k string :: has(s.tasks, k) && result[i] == s.tasks[k]
 //@   loop 0: invariant forall k string :: visited(k) && s.tasks[k].state.changes[s.tasks[k].change] != nil ==> exists i int :: 0 <= i && i < len(res) && res[i] == s.tasks[k]
